@@ -1,4 +1,4 @@
-from . import corpus, twins
+from . import corpus, paircorpus, twins
 ID = "C02"
 LEVEL = "translation_validation"
 HARNESS = "harness/c02_wire.py"
@@ -8,7 +8,7 @@ EXPLANATION = ("Per corpus program: the output of the repository's generator is 
                "checked against code generated from five twin trees that spell one boolean attribute's default explicitly.")
 BOUNDS = {"quick": "programs: every class of corpus/core plus a VERIF_SEED-chosen sample of 160 instruction pairs (and all 150 singles) of the generated pair corpus (plus 60 structs in the alternative file layout B), core generated from the core tree and from 5 explicit-default twin trees; strings of length 0 or 1 (any code point 0..0x10FFFF), arrays of 0, 1 or 2 elements, "
                    "integers / enum ordinals over their whole wire range",
-          "thorough": "core corpus with, per class, the richest of (lens<=1,counts<=2) (lens<=2,counts<=2) (lens<=3,counts<=2) (lens<=3,counts<=3) whose structure count stays <= 4000 (<= 800 on the twin trees), plus ALL 8,390 structs of the generated pair corpus (every ordered pair of 38 instruction templates in 7 contexts) in file layout A and again in layout B (structs in the root file, their types defined in a later-walked file); string lengths {0,1,2,3}, array counts {0,1,2,3}"}
+          "thorough": "core corpus with, per class, the richest of (lens<=1,counts<=2) (lens<=2,counts<=2) (lens<=3,counts<=2) (lens<=3,counts<=3) whose structure count stays <= 4000 (<= 800 on the twin trees), plus " + paircorpus.size_text() + " in file layout A and again in layout B (structs in the root file, their types defined in a later-walked file); string lengths {0,1,2,3}, array counts {0,1,2,3}"}
 OUTSIDE = "specifications not in the corpus; longer strings/arrays; objects violating their declaration (C16)"
 ASSUMPTIONS = ["O-xml (props/oxml.py + harness/vh_refsem.py) is the reading of the eo-protocol semantics",
                "a switch value that matches no case and has no default imposes nothing on case data; wire lengths below zero are assumed away"]
